@@ -202,6 +202,14 @@ func c07Queries(param string, m *meta.Module, defs []meta.Definition, t *model.T
 			add(c07Query{text: "content=" + v, params: model.Params{Content: v}, shape: "content=" + v})
 		}
 		add(c07Query{text: "content=bogus", invalid: true, shape: "content=invalid"})
+		// a parameter given twice: one of the two would win silently
+		add(c07Query{text: "content=config&content=nonconfig", invalid: true, shape: "parameter-given-twice"})
+		add(c07Query{text: "content=config&content=config", invalid: true, shape: "parameter-given-twice"})
+		add(c07Query{text: "depth=1&depth=2", invalid: true, shape: "parameter-given-twice"})
+		add(c07Query{text: "with-defaults=trim&with-defaults=report-all", invalid: true, shape: "parameter-given-twice"})
+		add(c07Query{text: "fields=zz&fields=yy", invalid: true, shape: "parameter-given-twice"})
+		add(c07Query{text: "fc.xfields=zz&fc.xfields=yy", invalid: true, shape: "parameter-given-twice"})
+		add(c07Query{text: "fc.max-node-count=1&fc.max-node-count=1000", invalid: true, shape: "parameter-given-twice"})
 		add(c07Query{text: "content=", invalid: true, shape: "content=empty"})
 	case "depth":
 		for d := 1; d <= schemaDepth+2; d++ {
